@@ -308,6 +308,22 @@ def check(ctx):
         w = sorted(set(f.name for f, n, k in p.global_accesses(g) if k in ('write', 'rmw', 'addr')))
         ctx.ob('C04.R4.table-writers', short(g), w == ['engine::zobrist::init'],
                '%s is written only by zobrist::init (once per process)' % short(g), site='engine/zobrist_hash.cpp')
+    # ---- R5 FILL: every cell of the random tables is drawn -----------------------------------------------------------
+    from rules.fill import fill_sites
+    tabs = {'engine::PIECE_HASH', 'engine::CASTLING_HASH', 'engine::ENPASSANT_HASH'}
+    n_fill = 0
+    seen_t = set()
+    for f, n, t, dim, ext, itv, lv in fill_sites(p, tabs):
+        n_fill += 1
+        seen_t.add(t)
+        ok = itv is not None and itv[0] == 0 and itv[1] == ext - 1 and f.name == 'engine::zobrist::init'
+        ctx.ob('C04.R5.fill', '%s[dim %d by %s]' % (short(t), dim, lv), ok,
+               'zobrist::init draws a random for every index of %s: loop variable `%s` covers exactly 0..%d (interval %s); '
+               'an undrawn cell stays 0 and makes two different positions share a key' % (short(t), lv, ext - 1, itv), site=f.loc(n))
+    ctx.floor('C04.R5.fill', n_fill, 4, 'random table stores')
+    ctx.ob('C04.R5.fill-tables', 'tables', seen_t == tabs, 'all three random tables are filled by loops', site='engine/zobrist_hash.cpp')
+    sh = [n for f, n, k in p.global_accesses('engine::SIDE_HASH') if k == 'write' and f.name == 'engine::zobrist::init']
+    ctx.ob('C04.R5.side-hash', 'SIDE_HASH', len(sh) == 1, 'SIDE_HASH is drawn once by zobrist::init', site='engine/zobrist_hash.cpp')
     ctx.note('not decided: that different positions get different keys (64-bit collision odds)')
 
 
